@@ -1,0 +1,10 @@
+// +build verif
+
+package wal
+
+import "github.com/youzan/ZanRedisDB/common"
+
+// VerifSetLogger replaces the package logger (nil silences it). Only compiled
+// with the verif build tag; simulations open hundreds of thousands of damaged
+// logs and must not drown in repair messages.
+func VerifSetLogger(l common.Logger) { plog.Logger = l }
